@@ -94,6 +94,12 @@ C6 == <<<<97, 32, 123>>, <<32, 32, 47, 42, 32, 97>>, <<32, 32, 32, 32, 98, 32, 4
 C7 == <<<<97, 32, 123>>, <<32, 32, 47, 42, 32, 97>>, <<32, 32, 32, 32, 99, 32, 42, 47>>, <<125>>, <<>>>>      \* ... and another letter
 C8 == <<<<97, 32, 123>>, <<32, 32, 98, 58, 32, 34, 47, 42, 34, 59>>, <<>>, <<125>>, <<>>>>                    \* "/*" in a string opens nothing
 C9 == <<<<97, 32, 123>>, <<32, 32, 98, 58, 32, 34, 47, 42, 34, 59>>, <<125>>, <<>>>>
+U1 == <<<<112, 58, 32, 117, 114, 108, 40, 34, 92, 34, 34, 41, 59>>>>      \* p: url("\"");
+U2 == <<<<112, 58, 32, 117, 114, 108, 40, 39, 34, 39, 41, 59>>>>          \* p: url('"');
+U3 == <<<<112, 58, 32, 117, 114, 108, 40, 39, 34, 49, 39, 41, 59>>>>      \* p: url('"1');
+U4 == <<<<112, 58, 32, 117, 114, 108, 40, 34, 41, 59>>>>                  \* p: url(");      (not quoted)
+U5 == <<<<47, 42, 32, 34, 97, 34, 32, 42, 47>>>>                          \* /* "a" */
+U6 == <<<<47, 42, 32, 39, 97, 39, 32, 42, 47>>>>                          \* /* 'a' */
 L5 == <<<<97, 32, 123>>, <<32, 32, 98, 58, 32, 34, 92, 34, 39, 34, 59>>, <<125>>, <<>>>>   \* a {\n  b: "\"'";\n}\n
 L6 == <<<<97, 32, 123>>, <<32, 32, 98, 58, 32, 34, 34, 39, 34, 59>>, <<125>>, <<>>>>       \* the quote not escaped
 R(st, l) == [st |-> st, lines |-> l]
@@ -106,6 +112,9 @@ ASSUME Laws ==
   /\ ~RoundTripOK(R("ok", L1), R("err", <<>>))
   /\ ~RoundTripOK(R("ok", <<>>), R("ok", L1))
   /\ RoundTripOK(R("ok", <<>>), R("ok", <<<<>>>>))
+  /\ RoundTripOK(R("ok", U1), R("ok", U2)) /\ RoundTripOK(R("ok", U2), R("ok", U1))      \* re-quoted: the same string
+  /\ ~RoundTripOK(R("ok", U1), R("ok", U3)) /\ ~RoundTripOK(R("ok", U1), R("ok", U4))    \* other content / not a string any more
+  /\ ~RoundTripOK(R("ok", U5), R("ok", U6))                                              \* comment text is compared exactly
   /\ RoundTripOK(R("ok", C1), R("ok", C1)) /\ ~RoundTripOK(R("ok", C1), R("ok", C2))      \* comment text is compared exactly
   /\ RoundTripOK(R("ok", C3), R("ok", C3)) /\ ~RoundTripOK(R("ok", C3), R("ok", C4))      \* also its blank lines
   /\ RoundTripOK(R("ok", C8), R("ok", C9))                                                \* blank lines outside comments do not count
